@@ -12,7 +12,7 @@ from harness.props.c02 import coq_piece, coq_impl
 
 IMPORTS = "From Ford Require Import Base.Str Lex.Quote Lex.Reader Lex.ReaderSpec Lex.Fixed Corr.C02 Corr.C14."
 THEOREMS = ["C14_fixed_as_free", "C14_fixed_statements", "C14_std_equivalent", "C14_partial",
-            "C14_refuted_literal_split"]
+            "C14_refuted_literal_split", "C14_refuted_indented_comment"]
 # the open findings: a character literal continued across lines; a comment line whose '!' stands in column 7 or
 # beyond between a line and its continuation line
 REGIONS = {"literal_split": 1, "indented_comment": 2}
@@ -50,6 +50,8 @@ def nlines(lines):
 def run(chk):
     chk.build(["theories/Corr/C14.vo", "theories/Props/C14.vo"])
     chk.props("theories/Props/C14.v", THEOREMS)
+    if chk.tier == "thorough":
+        chk.coqchk(["Ford.Props.C14"])
     rng = chk.rng
     quick = chk.tier == "quick"
     work = tempfile.mkdtemp(prefix="verif_c14_")
@@ -155,4 +157,4 @@ def finish(chk):
              "first; non-trivial = has a continuation line",
         checker_cmd="make theories/Props/C14.vo && coqc theories/Props/C14.v (Print Assumptions)",
         assumptions=["breaks only between tokens (a token split at column 72 is outside the generator), except "
-                     "for one character literal continued across lines (the open finding's region)"])
+                     "for one character literal continued across lines (an open finding's region)"])
